@@ -1203,6 +1203,44 @@ def check_same_instance_in_flight(acc, bases=None, outer=None, inner=None):
                         acc.violation({"oracle": "inner_pass_in_flight_equals_pass_alone", "base": bname}, {"case": case, "observed": repr(m.inner[:1])[:400], "expected": repr(exp_inner)[:400]})
 
 
+def check_factory_lists(acc):
+    """default_parse_stack() / default_unparse_stack() hand out lists: what a caller does with one (insert, clear, reverse -
+    deriving its own stack in place) changes neither a later list nor any later default call."""
+    from bibtexparser.middlewares.parsestack import default_parse_stack, default_unparse_stack
+
+    text = '@string{s = "v"}\n@a{k, t = {T}, u = s, year = 1999}\n'
+
+    class Mark(BlockMiddleware):
+        def transform_entry(self, entry, library):
+            entry.fields.append(Field("marked", "{yes}"))
+            return entry
+
+    ref_parse = cmp_lib(attempt(lambda: fold(default_parse(), Splitter(text).split())))
+    ref_write = attempt(lambda: write(fold(default_unparse(), bibtexparser.parse_string(text)), BibtexFormat()))
+    edits = {"insert(0, m)": lambda l: l.insert(0, Mark()), "append(m)": lambda l: l.append(Mark()), "clear()": lambda l: l.clear(), "reverse()": lambda l: l.reverse(), "l[0] = m": lambda l: l.__setitem__(0, Mark())}
+    for fname, fac in (("default_parse_stack", default_parse_stack), ("default_unparse_stack", default_unparse_stack)):
+        for kw in ({}, {"allow_inplace_modification": True}, {"allow_inplace_modification": False}):
+            for ename, edit in edits.items():
+                case = {"factory_list": fname, "kwargs": {k: v for k, v in kw.items()}, "edit": ename}
+                acc.trace(3)
+                acc.case(nontrivial_key=("factory-list", fname, tuple(kw.items()), ename))
+                try:
+                    first = fac(**kw)
+                    types_before = [type(m).__name__ for m in first]
+                    edit(first)
+                    second = fac(**kw)
+                    if second is first or [type(m).__name__ for m in second] != types_before:
+                        acc.violation({"oracle": "factory_hands_out_a_list_of_its_own", "factory": fname}, {"case": case, "observed": [type(m).__name__ for m in second], "expected": types_before})
+                        continue
+                except Exception as ex:
+                    acc.exception(ex, case, fname)
+                    continue
+                got_parse = cmp_lib(attempt(lambda: bibtexparser.parse_string(text)))
+                got_write = attempt(lambda: bibtexparser.write_string(bibtexparser.parse_string(text)))
+                if got_parse != ref_parse or got_write != ref_write:
+                    acc.violation({"oracle": "default_call_after_a_caller_edited_a_factory_list", "factory": fname}, {"case": case, "observed": repr(got_write if got_parse == ref_parse else got_parse)[:400], "expected": repr(ref_write if got_parse == ref_parse else ref_parse)[:400]})
+
+
 def check_shared_parts(acc):
     """Libraries built in code whose entries share a Field object (or whose blocks occur twice): write_string equals the
     prepended stack, then the default write stack, then the writer - on such a library like on any other."""
@@ -1270,6 +1308,7 @@ def run_shard(shard, tier, acc):
         BIGPASS_LIGHT[0] = tier == "quick"
         return check_bigpass(shard[1], acc)
     if shard[0] == "reentry":
+        check_factory_lists(acc)
         check_shared_parts(acc)
         check_same_instance_in_flight(acc)
         return check_reentry(acc)
@@ -1315,6 +1354,8 @@ def replay(case, acc):
             check_reentry(acc)
         elif "shared_parts" in case:
             check_shared_parts(acc)
+        elif "factory_list" in case:
+            check_factory_lists(acc)
         elif "same_instance_in_flight" in case:
             check_same_instance_in_flight(acc)
         elif "failure" in case or "parse_failure" in case:
